@@ -60,6 +60,11 @@ CHECKS = {
         technique="explicit-state BFS over operation sequences of the real Server/ClientMessageDispatcher with a dict reference model in lock-step; the registration map is observed through dispatch() after every operation; closed state graph",
         text="18 operations (register/unregister of 5 resources incl. string annotations and two partial-conflict shapes, dispatch of 4 classes incl. an unregistered subclass, register_function by class/name, unregister_function) from every reachable state: the state graph closes (65 states per dispatcher, all 65x18 transitions executed on the implementation), so every operation sequence of any length over this alphabet is covered.",
         note="alphabet of 5 resources / 4 message classes; partial effect of a refused registration and unregister of an unregistered resource are left open (observed outcome adopted within the allowed set)"),
+    "C08": dict(
+        engine="enum+bfs+mcx", category="model_checking", design="5/C08",
+        technique="exhaustive enumeration of all 65535 ring values x offset set (SeqNum); explicit-state BFS over BitField insertion histories (widths 8/16/32/256, three start positions incl. the wrap) against a set-based reference; wire ack-field monitor inside deviation-bounded exploration of the real stack",
+        text="SeqNum: every a in 1..65535 x 44 (quick) / 1143 (thorough) offsets up to half the ring, both directions, all comparison operators, successor chain over two laps. BitField: BFS hashed on (newest, bits), contains() compared on the whole +-(w+3) neighbourhood after every insert. Wire: every header emitted in every <=2-deviation execution must name exactly the accepted peer datagrams among the newest 32.",
+        note="offsets thinned (not all 32767) per value; BitField depth bounded (5/4/4/3 quick); wire part <=2 deviations"),
 }
 
 NOT_YET = {
